@@ -12,7 +12,7 @@ import z3
 from .core import (
     Interp, PathCtx, PathEnd, RaiseSig, Roots, clone_graph, heap_diff, Obligation, QueueCell, same_value,
 )
-from .values import axioms_for, CheckerError, Eq_, And_, Not_, Implies_, SObj, SOpt, to_z3_bool, Unsupported, ListCell, DictCell
+from .values import axioms_for, view_hints, CheckerError, Eq_, And_, Not_, Implies_, SObj, SOpt, to_z3_bool, Unsupported, ListCell, DictCell
 
 Z3_RLIMIT = 40_000_000
 Z3_TIMEOUT_MS = 120_000
@@ -75,13 +75,19 @@ def run_path(interp: Interp, fi, contract):
     old, _ = clone_graph(roots)
     o = Roots(old)
     ctx.pre_roots = o
+    for lem in contract.pre_lemmas:
+        vs = [z3.Int(f"lem!{lem.label}!{i}") for i in range(lem.nvars)]
+        body = lem.body(o, *vs)
+        hints = lem.hints(o, *vs) if lem.hints else []
+        ctx.oblige(f"{fi.fq}::lemma::{lem.label}", body, kind="lemma", props=contract.props, hints=hints)
+        ctx.assume(z3.ForAll(vs, body) if vs else body)
     n_pre_events = len(ctx.trace)
     fq = fi.fq
     try:
         result = interp.call_function(fi, [roots[p] for p in params], {})
     except RaiseSig as r:
         exc = r.exc
-        n = Roots(roots)
+        n = Roots(roots, ctx.trace[n_pre_events:], interp)
         matched = [rc for rc in contract.raises if issubclass(exc.cls, rc.exc)]
         if not matched:
             ctx.oblige(f"{fq}::safety::no-{exc.cls.__name__}@{exc.line}", False, kind="safety", line=exc.line,
@@ -103,7 +109,7 @@ def run_path(interp: Interp, fi, contract):
         return "raise", f"{exc.cls.__name__}@{exc.line}"
     except PathEnd as e:
         return "ended", e.why
-    n = Roots(roots)
+    n = Roots(roots, ctx.trace[n_pre_events:], interp)
     for rc in contract.raises:
         if rc.iff and rc.when is not None:
             ctx.oblige(f"{fq}::raises::{rc.label}.must-raise", Not_(rc.when(o)), kind="raises", props=rc.props)
@@ -268,15 +274,64 @@ def split_goal(hyps, goal, depth=0):
     return [(hyps, goal)]
 
 
-PORTFOLIO = [
-    ({}, 3_000_000),
-    ({"smt.random_seed": 7}, 6_000_000),
-    ({"smt.random_seed": 13, "smt.qi.eager_threshold": 100.0}, 12_000_000),
-    ({"smt.random_seed": 29}, 40_000_000),
-]
+_sym_cache = {}
 
 
-def _z3_check(hyps, goal, cfg, rlimit):
+def symbols_of(e):
+    """names of uninterpreted constants/functions occurring in a term (cached by ast id)."""
+    i = e.get_id()
+    if i in _sym_cache:
+        return _sym_cache[i]
+    out = set()
+    seen = set()
+    stack = [e]
+    while stack:
+        x = stack.pop()
+        xi = x.get_id()
+        if xi in seen:
+            continue
+        seen.add(xi)
+        if z3.is_quantifier(x):
+            stack.append(x.body())
+        elif z3.is_app(x):
+            d = x.decl()
+            if d.kind() == z3.Z3_OP_UNINTERPRETED:
+                out.add(d.name())
+            stack.extend(x.children())
+    _sym_cache[i] = out
+    return out
+
+
+def cone_of_influence(hyps, goal):
+    """keep only hypotheses connected to the goal through shared uninterpreted symbols (sound: fewer
+    hypotheses can only make a proof harder; a counter-model of the reduced query extends to the
+    dropped hypotheses because they share no symbol with it)."""
+    hs = [(h, symbols_of(h)) for h in hyps]
+    rel = set(symbols_of(goal))
+    for ax in axioms_for([goal]):
+        rel |= symbols_of(ax)
+    keep = [False] * len(hs)
+    changed = True
+    while changed:
+        changed = False
+        for k, (h, sy) in enumerate(hs):
+            if keep[k]:
+                continue
+            if not sy or (sy & rel):
+                keep[k] = True
+                if not sy <= rel:
+                    rel |= sy
+                    for ax in axioms_for([h]):
+                        rel |= symbols_of(ax)
+                    changed = True
+    return [h for k, (h, _) in enumerate(hs) if keep[k]]
+
+
+PORTFOLIO = [({}, 3_000_000)] + [({"smt.random_seed": sd}, 6_000_000) for sd in (7, 13, 29, 41, 53, 67, 79, 97)] + [
+    ({"smt.random_seed": 3}, 40_000_000), ({"smt.random_seed": 11}, 40_000_000)]
+
+
+def _z3_check(hyps, goal, cfg, rlimit, hints=()):
     s = z3.Solver()
     s.set("rlimit", rlimit)
     s.set("timeout", Z3_TIMEOUT_MS)
@@ -285,8 +340,10 @@ def _z3_check(hyps, goal, cfg, rlimit):
     for h in hyps:
         s.add(h)
     s.add(z3.Not(goal))
-    for ax in axioms_for(list(hyps) + [goal]):
+    for ax in axioms_for(list(hyps) + [goal] + list(hints)):
         s.add(ax)
+    for i, t in enumerate(list(hints) + view_hints(hyps, goal)):
+        s.add(z3.Bool(f"hint!{i}") == t)  # puts the ground term into the e-graph
     r = s.check()
     return r, s
 
@@ -298,21 +355,33 @@ def discharge(ob: Obligation, rlimit=Z3_RLIMIT, use_cvc5=True):
         return "unsat", "simplify", time.time() - t0, None
     parts = split_goal(list(ob.hyps), ob.goal)
     backend_used = "z3"
-    for hyps, goal in parts:
+    for full_hyps, goal in parts:
+        # stage 1: cone-of-influence reduced query (fast; proves most goals, gives clean counter-models)
+        reduced = cone_of_influence(full_hyps, goal)
+        reduced_model = None
+        if len(reduced) < len(full_hyps):
+            r, s = _z3_check(reduced, goal, {}, 3_000_000, ob.hints)
+            if r == z3.unsat:
+                continue
+            if r == z3.sat:
+                reduced_model = model_to_dict(s.model())
+        # stage 2: all hypotheses, solver portfolio
         verdict = None
         last = None
         for cfg, rl in PORTFOLIO:
-            r, s = _z3_check(hyps, goal, cfg, rl)
+            r, s = _z3_check(full_hyps, goal, cfg, rl, ob.hints)
             last = s
             if r == z3.unsat:
                 verdict = "unsat"
                 break
             if r == z3.sat:
                 return "sat", "z3", time.time() - t0, model_to_dict(s.model())
+            if reduced_model is not None and rl >= 6_000_000:
+                break  # the reduced query already has a counter-model; do not burn the whole portfolio
         if verdict == "unsat":
             continue
         reason = last.reason_unknown()
-        if use_cvc5:
+        if use_cvc5 and reduced_model is None:
             v, why = run_cvc5(last.to_smt2())
             if v == "unsat":
                 backend_used = "z3+cvc5"
@@ -320,6 +389,10 @@ def discharge(ob: Obligation, rlimit=Z3_RLIMIT, use_cvc5=True):
             if v == "sat":
                 return "sat", "cvc5", time.time() - t0, {"_note": "cvc5 sat; no model extracted", "_z3_reason": reason}
             reason += f"; cvc5: {why}"
+        if reduced_model is not None:
+            reduced_model["_note"] = ("counter-model of the cone-of-influence-reduced query; the full query (with "
+                                      "quantified hypotheses) is undecided: " + reason)
+            return "sat", "z3", time.time() - t0, reduced_model
         return "unknown", "z3+cvc5" if use_cvc5 else "z3", time.time() - t0, {"_reason": reason, "_subgoal": str(goal)[:300]}
     return "unsat", backend_used, time.time() - t0, None
 
